@@ -413,7 +413,7 @@ def ignored_reason(t, relpath):
 
 
 def sibling_prefix_cause(t, relpath):
-    """is some ancestor directory P/n of the file named by a slash-less entry `n` of a .gitignore
+    """is some ancestor directory P/n of the file (or the file itself) named by a slash-less entry `n` of a .gitignore
     whose folder G is a proper string prefix of P without being P or an ancestor of P?"""
     parts = relpath.split('/')
     gi = []
@@ -424,7 +424,7 @@ def sibling_prefix_cause(t, relpath):
                     b = e.rstrip('/')
                     if b and '/' not in b:
                         gi.append((rel, b))
-    for i in range(len(parts) - 1):
+    for i in range(len(parts)):           # the ancestors and (file-level entries) the file itself
         parent = '/'.join(parts[:i])
         name = parts[i]
         for g, b in gi:
